@@ -944,3 +944,12 @@ EC = "eval_cache.py"
 v("d61-key-without-types", "C25", EC, '    return f"{d.shape}_{list(d.columns)}_{hash_str}_{type_str}"\n', '    return f"{d.shape}_{list(d.columns)}_{hash_str}"\n')
 v("d61-key-without-dtypes", "C25", EC, "    col_types = [str(t) for t in d.dtypes]\n", "    col_types = []\n")
 v("d61-key-without-cell-types", "C25", EC, "        [type(v).__name__ for v in d[c]]\n", "        [len(d[c])]\n")
+
+v("d62-absent-arg-specs-dereferenced", "C22", DS,
+  "        self.arg_specs = _prep_schema_specification(\n            arg_specs if arg_specs is not None else dict()\n        )\n", "        self.arg_specs = _prep_schema_specification(arg_specs)\n")
+v("d63-null-test-elementwise", "C22", DS,
+  "    res = pd.isnull(v)\n    if isinstance(res, (bool, np.bool_)):\n        return bool(res)\n    return False  # a list, array or frame is a value, not a null\n", "    return pd.isnull(v)\n")
+v("d64-null-arguments-type-checked", "C22", DS,
+  "        elif (not isinstance(expected_type, dict)) and _is_null(observed_value):\n            # nulls are not considered to have a type\n            return None\n", "")
+v("d65-binding-by-index", "C22", DS,
+  "                check_args = []\n                check_kwargs = dict(bound_args.arguments)\n", "                pass\n")
